@@ -137,3 +137,58 @@ theorem C12_trans_decodeTimeout : ∀ s : GB.Bytes,
 /-- not vacuous: the regenerated definition computes ("10S" = 10 s, "1H" = 1 h) -/
 example : GB.Generated.Trans.decodeTimeout [49, 48, 83] = (10000000000, true) := by decide
 example : GB.Generated.Trans.decodeTimeout [49, 48, 120] = (0, false) := by decide
+
+/-! ## Wave 4: `ProxyForwarder.baseContext` — grpc-timeout presence test and first-value selection (IF-HEAD fragments)
+
+`baseContext_present md` = init + condition of `if v := md.Get("grpc-timeout"); len(v) > 0` (forwarder.go:158),
+`baseContext_decode v`  = init + condition of `if d, ok := decodeTimeout(v[0]); ok` (forwarder.go:161);
+`metadata.MD` is modelled by its `Get` function (key lower-casing is grpc's). -/
+
+/-- the control skeleton of `baseContext` over the two regenerated if-heads: `some d` = the `context.WithTimeout(ctx, d)`
+    exit, `none` = the `context.WithCancel` exit -/
+def GB.C12.TransTie.baseContextDeadline (md : GB.Bytes → List GB.Bytes) : Option Int :=
+  match GB.Generated.Trans.baseContext_present md with
+  | (v, true) =>
+    (match GB.Generated.Trans.baseContext_decode v with
+     | (d, true) => some d
+     | (_, false) => none)
+  | (_, false) => none
+
+/-- "grpc-timeout" (the Go constant `metadataTimeout`, inlined by value by the translator) -/
+def GB.C12.TransTie.keyTimeout : GB.Bytes := [103, 114, 112, 99, 45, 116, 105, 109, 101, 111, 117, 116]
+
+/-- presence test: `v` is the value list of the key "grpc-timeout", the branch is taken iff it is non-empty -/
+theorem C12_trans_baseContext_present : ∀ md : GB.Bytes → List GB.Bytes,
+    GB.Generated.Trans.baseContext_present md = (md keyTimeout, !(md keyTimeout).isEmpty) := by
+  intro md
+  unfold GB.Generated.Trans.baseContext_present keyTimeout
+  cases md [103, 114, 112, 99, 45, 116, 105, 109, 101, 111, 117, 116] with
+  | nil => rfl
+  | cons a r =>
+    simp only [len, List.length_cons, List.isEmpty_cons, Bool.not_false, Prod.mk.injEq, true_and, decide_eq_true_eq]
+    have : Int.ofNat (r.length + 1) > 0 := by simp only [Int.ofNat_eq_natCast]; omega
+    simp [this]
+
+/-- first-value selection: on a non-empty value list only `v[0]` is decoded (the model's `decodeTimeout`) -/
+theorem C12_trans_baseContext_decode : ∀ (v : GB.Bytes) (rest : List GB.Bytes),
+    GB.Generated.Trans.baseContext_decode (v :: rest) = ofOption (GB.C12.decodeTimeout v) := by
+  intro v rest
+  unfold GB.Generated.Trans.baseContext_decode
+  have h0 : idxS (v :: rest) 0 = v := by simp [idxS]
+  rw [h0, C12_trans_decodeTimeout]
+
+/-- `callDeadline` (the model function all C12 deadline theorems are about) applied to the grpc-timeout values IS the
+    skeleton of `baseContext` over the regenerated presence test and first-value decode -/
+theorem C12_trans_baseContext : ∀ md : GB.Bytes → List GB.Bytes,
+    baseContextDeadline md = GB.C12.callDeadline (md keyTimeout) := by
+  intro md
+  unfold baseContextDeadline
+  rw [C12_trans_baseContext_present]
+  cases h : md keyTimeout with
+  | nil => rfl
+  | cons a r =>
+    simp only [List.isEmpty_cons, Bool.not_false, C12_trans_baseContext_decode, GB.C12.callDeadline]
+    cases GB.C12.decodeTimeout a <;> rfl
+
+example : baseContextDeadline (fun k => if k == keyTimeout then [[49, 48, 83], [55, 72]] else []) = some 10000000000 := by decide
+example : baseContextDeadline (fun _ => []) = none := by decide
